@@ -3168,6 +3168,11 @@ class QuicConnection:
                         discarded.add(stream)
                         continue
 
+                    if stream.is_blocked:
+                        # the peer's stream limit does not allow this stream to
+                        # be opened yet, nothing may be sent for it
+                        continue
+
                     if stream.receiver.stop_pending:
                         # STOP_SENDING
                         self._write_stop_sending_frame(builder=builder, stream=stream)
